@@ -4,6 +4,7 @@ import YncaVerif.Model.Subunit
 import YncaVerif.Model.Framing
 import YncaVerif.Model.Accept
 import YncaVerif.Model.Server
+import YncaVerif.Model.Dialogue
 import YncaVerif.Gen.ServerTables
 import YncaVerif.Gen.Enums
 import YncaVerif.Gen.Functions
@@ -83,6 +84,9 @@ structure DState where
   scripts : List (Nat × Nat × List CbOp) := []
   buf : List UInt8 := []
   kaPending : Bool := false
+  /-- L5 run check: the device's answers (command text -> lines) and the dialogue state; `none` once a label was not enabled -/
+  answers : List (String × List String) := []
+  dlg : Option L5.D := some {}
 
 def noExotic : Exotic := fun _ _ => none
 
@@ -158,6 +162,42 @@ def volArithPlain : Srv.VolArith := fun stored halves =>
 def stepState (mode : String) (d : DState) (line : String) : DState × String :=
   let toks := (line.splitOn " ").filter (· ≠ "")
   match mode, toks with
+  | "dialogue", "answer" :: cmd :: lines =>
+    match Hex.strOfHex cmd, lines.mapM Hex.strOfHex with
+    | some c, some ls => ({ d with answers := (c, ls) :: d.answers.filter (·.1 != c) }, "ok")
+    | _, _ => (d, "bad-op")
+  | "dialogue", ["reset"] => ({ d with dlg := some {}, answers := [] }, "ok")
+  | "dialogue", op :: args =>
+    let answer : L5.Answer := fun q => match d.answers.find? (·.1 == q) with | some e => e.2 | none => []
+    match d.dlg with
+    | none => (d, "dead")
+    | some st =>
+      let lab : Option L5.Label :=
+        match op, args with
+        | "begin", t :: qs => match t.toNat?, qs.mapM Hex.strOfHex with
+            | some t, some qs => some (.begin qs t)
+            | _, _ => none
+        | "write", [_] => some .write
+        | "consume", [] => some .consume
+        | "unsol", [l] => (Hex.strOfHex l).map L5.Label.unsolicited
+        | "process", [_] => some .process
+        | "wake", [] => some .wake
+        | "timeout", [] => some .timeout
+        | "tick", [n] => n.toNat?.map L5.Label.tick
+        | _, _ => none
+      match lab with
+      | none => (d, "bad-op")
+      | some lab =>
+        -- the observed text must be the one the model is about to write / process
+        let textOk : Bool :=
+          match op, args with
+          | "write", [h] => (match st.pending with | q :: _ => Hex.strOfHex h == some q | [] => false)
+          | "process", [h] => (if hh : st.processed < st.emitted.length then Hex.strOfHex h == some st.emitted[st.processed] else false)
+          | _, _ => true
+        if !textOk then ({ d with dlg := none }, "REJECT text")
+        else match L5.step answer st lab with
+          | some st' => ({ d with dlg := some st' }, "ok")
+          | none => ({ d with dlg := none }, "REJECT not-enabled")
   | "subunit", ["new", py] =>
     match findCls py with
     | some c => ({ d with objs := d.objs.push (SubSt.new c) }, "ok")
